@@ -84,7 +84,7 @@ func minLenRule(c *Ctx, rows []minLenRow) int {
 	for _, row := range rows {
 		fn := p.Func(row.fn)
 		if fn == nil {
-			r.Fatalf("anchor %s missing", row.fn)
+			missingAnchor(r, row.fn)
 			continue
 		}
 		sites, set, ok := minLenSites(c, fn)
